@@ -167,6 +167,18 @@ def judge(d):
                 one = ldr.load(i, output_shape=(3, 3, 3))
             if not np.array_equal(one, subs[i]):
                 out.append(viol("C03/load-row", f"{tag}: load({i}) != asnumpy()[{i}]"))
+            # index lists in any order, with repeats and negative indices; slices with a step
+            idx = [int(v) % (2 * n) - n for v in d.get("obs_idx", [0])]
+            sl = slice(*d.get("obs_slice", [None, None, None]))
+            with warnings.catch_warnings():
+                warnings.simplefilter("ignore")
+                many = ldr.load(idx, output_shape=(3, 3, 3))
+                # (an empty selection has nothing to stack and raises: not a row-attribution question)
+                part = ldr.load(sl, output_shape=(3, 3, 3)) if len(subs[sl]) else subs[sl]
+            if many.shape != (len(idx), 3, 3, 3) or not np.array_equal(many, subs[idx]):
+                out.append(viol("C03/load-list-rows", f"{tag}: load({idx}) != asnumpy()[{idx}] (shape {many.shape})"))
+            if part.shape != subs[sl].shape or not np.array_equal(part, subs[sl]):
+                out.append(viol("C03/load-slice-rows", f"{tag}: load({sl}) != asnumpy()[{sl}] (shape {part.shape})"))
 
     def snapshot(ldr):
         m = ldr.molecules
@@ -463,6 +475,8 @@ def cases(draw):
             "ids": draw(st.permutations([5, 2, 9, 0, 7]))[:3], "order": draw(st.sampled_from([0, 1])),
             "ops": draw(st.lists(op_strategy(), min_size=0, max_size=6)),
             "obs": draw(st.sampled_from(["apply", "score", "align", "landscape"])), "obs_load": draw(st.booleans()), "obs_i": draw(st.integers(0, 20)),
+            "obs_idx": draw(st.lists(st.integers(0, 40), min_size=1, max_size=5)),
+            "obs_slice": draw(st.sampled_from([[None, None, None], [1, None, None], [None, -1, None], [None, None, 2], [None, None, -1], [3, 0, -1]])),
             "orient": draw(st.booleans()), "tilt": draw(st.booleans())}
 
 
